@@ -50,9 +50,10 @@ def scratch_base():
 
 def new_sandbox(tag="r"):
     d = os.path.join(scratch_base(), "hsv-%d-%s-%d" % (os.getpid(), tag, next(_counter)))
-    if os.path.exists(d):
-        shutil.rmtree(d)
-    os.makedirs(os.path.join(d, "input"))
+    with seam.passthrough():
+        if os.path.exists(d):
+            shutil.rmtree(d)
+        os.makedirs(os.path.join(d, "input"))
     return d
 
 
@@ -124,7 +125,8 @@ class World(object):
         self.own_sandbox = sandbox is None
         self.store_root = os.path.join(self.sandbox, "store")
         self.input_dir = os.path.join(self.sandbox, "input")
-        os.makedirs(self.input_dir, exist_ok=True)
+        with seam.passthrough():
+            os.makedirs(self.input_dir, exist_ok=True)
         self.pids = prog["pids"]
         self.formats = prog.get("formats", [])
         self.contents = [make_content(s) for s in prog["contents"]]
@@ -140,6 +142,10 @@ class World(object):
 
     # -- files the caller supplies -------------------------------------------------------------
     def _write_inputs(self):
+        with seam.passthrough():
+            self._write_inputs2()
+
+    def _write_inputs2(self):
         for i, c in enumerate(self.contents):
             p = os.path.join(self.input_dir, "c%d" % i)
             if not os.path.exists(p):
@@ -192,7 +198,8 @@ class World(object):
 
     def cleanup(self):
         if self.own_sandbox:
-            shutil.rmtree(self.sandbox, ignore_errors=True)
+            with seam.passthrough():
+                shutil.rmtree(self.sandbox, ignore_errors=True)
 
     # -- executing one operation -----------------------------------------------------------------
     def data_arg(self, idx, kind, off=0, short=0, prefix="c"):
